@@ -72,6 +72,7 @@ class C06(Check):
                     block = (block + 1 + (r * 7 + ln) % 2) % 3 if r else 0
                     items += [block * k + (j % k) for j in range(ln)]
                 yield {'pred': PREDS[idx % len(PREDS)] % k, 'parent': 'top', 'parent_node': None, 'items': items}
+        self.box_done = 1
 
     def _nested(self, rng, tier):
         k = 1500 if tier == 'quick' else 15000
@@ -116,6 +117,11 @@ class C06(Check):
                 return out
         out.observed['events_logged'] += len(ob.log)
         return out
+
+    box_done = 0
+
+    def extra_evidence(self):
+        return {'shards_that_enumerated_their_part_of_the_box_completely': self.box_done}
 
     def shrink(self, case):
         items = case['items']
